@@ -569,7 +569,7 @@ func TestProp(t *testing.T) {
 		return
 	}
 	maxLen := r.Pick(3, 4)
-	r.Rapid(t, "grammars", r.Pick(1600, 60000), func(t *rapid.T) {
+	r.Rapid(t, "grammars", r.Pick(1600, 12000), func(t *rapid.T) {
 		c := genCase().Draw(t, "grammar")
 		st, err := check(c, maxLen)
 		r.Label("sampled_grammar")
